@@ -4,6 +4,7 @@ package controller
 
 import (
 	"strconv"
+	"time"
 
 	"github.com/atlassian/escalator/pkg/cloudprovider/aws"
 	v1 "k8s.io/api/core/v1"
@@ -18,19 +19,20 @@ func init() {
 // group "default") processed first and group B ("g1") second. A's inputs are
 // named with prefix pa, B's with "B.".
 type twoCfg struct {
-	pa               string
-	nA, nB           int
-	dryA, dryGlobal  bool
-	trackers         bool // dry-mode tracker contents symbolic
-	defaultA         bool
-	faultsA          bool // symbolic non-fatal faults in A
-	emptyA           bool // A has no pods either
-	emptyB           bool // B has no nodes and no pods
-	podOnNodeA       bool // A's pod may sit on one of A's nodes (non-empty nodes)
-	affinityFormsB   bool // B's pod may select B through required node affinity (plus a NotIn on A's value)
-	classesA         []int
-	production       bool // the controller is assembled by the real NewController / NewClient (production.go)
-	autoA            bool // A leaves min_nodes/max_nodes out: its bounds are whatever its cloud group reports (also min = max, or 0..0)
+	pa              string
+	nA, nB          int
+	dryA, dryGlobal bool
+	trackers        bool // dry-mode tracker contents symbolic
+	defaultA        bool
+	faultsA         bool // symbolic non-fatal faults in A
+	emptyA          bool // A has no pods either
+	emptyB          bool // B has no nodes and no pods
+	podOnNodeA      bool // A's pod may sit on one of A's nodes (non-empty nodes)
+	affinityFormsB  bool // B's pod may select B through required node affinity (plus a NotIn on A's value)
+	classesA        []int
+	slowFleetA      bool // A scales through a launch template whose instances never become ready: its scale-up blocks for 3 s (longer than the 2 s scan interval of that world) and fails
+	production      bool // the controller is assembled by the real NewController / NewClient (production.go)
+	autoA           bool // A leaves min_nodes/max_nodes out: its bounds are whatever its cloud group reports (also min = max, or 0..0)
 }
 
 func buildTwo(c twoCfg) (*vWorld, int, int) {
@@ -49,6 +51,11 @@ func buildTwo(c twoCfg) (*vWorld, int, int) {
 	if c.faultsA {
 		// cloud refusal: the ASG may already be at its maximum
 		asgMaxA = int64(c.nA) + verifInt(c.pa+"asg.headroom", 0, 3)
+	}
+	if c.slowFleetA {
+		oa.AWS.LaunchTemplateID, oa.AWS.LaunchTemplateVersion = "lt-a", "1"
+		oa.AWS.FleetInstanceReadyTimeout = "3s"
+		w.EC2.ReadyAfter = 0
 	}
 	asgMinA := int64(0)
 	if c.autoA {
@@ -131,6 +138,9 @@ func buildTwo(c twoCfg) (*vWorld, int, int) {
 		w.buildProduction()
 	} else {
 		w.build()
+	}
+	if c.slowFleetA {
+		w.ctrl.Opts.ScanInterval = 2 * time.Second // shorter than A's fleet timeout
 	}
 	if c.trackers {
 		st := w.ctrl.nodeGroups[oa.Name]
@@ -231,11 +241,11 @@ func VerifHarness_C11() {
 }
 
 // VerifHarness_C12: node groups are isolated from each other.
-// shape: [nodes A, nodes B, A is the default group (0/1), A auto-discovers its bounds (0/1)]
+// shape: [nodes A, nodes B, A is the default group (0/1), A auto-discovers its bounds (0/1), A scales through a fleet that never becomes ready (0/1)]
 func VerifHarness_C12() {
 	nA, nB, def := verifShape(0), verifShape(1), verifShape(2)
 	classes := []int{tcNone, tcEsc, tcForce}
-	c1 := twoCfg{pa: "A.", nA: nA, nB: nB, classesA: classes, defaultA: def == 1, faultsA: true, affinityFormsB: true, autoA: verifShape(3) == 1}
+	c1 := twoCfg{pa: "A.", nA: nA, nB: nB, classesA: classes, defaultA: def == 1, faultsA: true, affinityFormsB: true, autoA: verifShape(3) == 1, slowFleetA: verifShape(4) == 1}
 	// reference runs: one with A empty (no nodes, no pods: processed, nothing to do), one with
 	// B empty. If B is acted on identically whatever A looks like and when A is empty, any two
 	// worlds differing only inside A give the same actions on B (and symmetrically for A).
@@ -268,6 +278,11 @@ func VerifHarness_C12() {
 			n += len(w1.groupCalls(g, 0))
 		}
 		verifAssert("C12.every-call-attributable", n == w1.mutations(0))
+	}
+	// a group without nodes and pods has nothing done to it or to its cloud group (w2's A, w3's B)
+	{
+		a2idx := 0
+		verifAssert("C12.empty-group-gets-no-calls", len(w2.groupCalls(a2idx, 0)) == 0)
 	}
 	jb1, jb2 := w1.groupCalls(b1, 0), w2.groupCalls(b2, 0)
 	if err1 == nil {
